@@ -39,7 +39,9 @@ def gen_alarm(rng):
 def gen_end(rng, start):
     r = rng.randrange(4)
     if start is None:
-        return rng.choice((None, None, ("duration", ("td", 3600))))
+        # no start: nothing, a DURATION, or an end of its own (a VTODO with only DUE is a legal component)
+        return rng.choice((None, ("duration", ("td", 3600)), ("end", ("dt", 2024, 4, 2, 10, 0, 0, "UTC")), ("end", ("d", 2024, 4, 2)),
+                           ("end", ("dt", 2024, 3, 31, 3, 15, 0, "zone:Europe/Berlin"))))
     if r == 0:
         return None
     if r == 1:
